@@ -60,12 +60,21 @@ def x1_pair(ctx):
         for val, c2 in alternatives(t, strip(inner[2][0])[3] if strip(inner[2][0])[0] == 'cast' else inner[2][0], _conds=conds):
             vt = render(val)
             m = None
-            if re.fullmatch(r'NaiveDateTime::timestamp\(tools::get_time\("[^"]+", fields\) as Some\.0\.#?0\)', vt):
-                m = 'time'
-            elif re.fullmatch(r'NaiveDateTime::timestamp\(NaiveDate::and_hms(_opt)?\(tools::get_date\("[^"]+", fields\) as Some\.0\.#?0, 0, 0, 0\)( as Some\.0)?\)', vt):
+            # the stored UTC value of the operand: through the typed getter, read from the token itself, or from the item a
+            # variable holds (the getters do exactly these two things)
+            SRC = (r'(?:tools::get_(?P<g>time|date_time|date)\("[^"]+", fields\) as Some\.0\.#?0'
+                   r'|BTreeMap::get\(fields, "[^"]+"\) as Some\.0\.token_type as Some\.0 as (?P<k>Time|DateTime|Date)\.0'
+                   r'|(?P<v>downcast_ref)\(DataItem::as_any\(BTreeMap::get\(fields, "[^"]+"\) as Some\.0\.token_type as Some\.0 as Variable\.0\.data as Item\.0\)\) as Some\.0\.0)')
+            m1 = re.fullmatch(r'NaiveDateTime::timestamp\(%s\)' % SRC, vt)
+            m2 = re.fullmatch(r'NaiveDateTime::timestamp\(NaiveDate::and_hms(?:_opt)?\(%s, 0, 0, 0\)(?: as Some\.0)?\)' % SRC, vt)
+            if m2 and (m2.group('g') in (None, 'date')) and (m2.group('k') in (None, 'Date')):
                 m = 'date (midnight UTC)'
-            elif re.fullmatch(r'NaiveDateTime::timestamp\(tools::get_date_time\("[^"]+", fields\) as Some\.0\.#?0\)', vt):
+            elif m1 and (m1.group('g') == 'time' or m1.group('k') == 'Time'):
+                m = 'time'
+            elif m1 and (m1.group('g') == 'date_time' or m1.group('k') == 'DateTime'):
                 m = 'date-time'
+            elif m1 and m1.group('v'):
+                m = 'a variable holding a time or a date-time'
             elif vt == '0':
                 m = 'none (0)'
             if m is None:
